@@ -43,6 +43,11 @@ func (r *patScriptReader) Read(p []byte) (int, error) {
 }
 
 func patView(p psi.PAT, unchanged func() bool) Val {
+	// asked twice in a row: the answers of a PAT must not depend on having been asked before (stable.go)
+	return twice("PAT getters", func() Val { return patView1(p, unchanged) })
+}
+
+func patView1(p psi.PAT, unchanged func() bool) Val {
 	num := guarded(func() Val { return VOk(VI(int64(p.NumPrograms()))) })
 	pm := guarded(func() Val {
 		m := p.ProgramMap()
